@@ -66,6 +66,9 @@ def _both(fn_proxy, fn_ref):
     return rp, ep, rr, er
 
 
+STEP = [None]   # set per obligation (extended slices)
+
+
 LIST_OPS = ("append", "insert", "extend", "setitem", "setslice", "iadd", "add", "mul", "imul", "copy",
             "pop", "remove", "delitem", "sort", "reverse", "clear", "queries", "init")
 
@@ -98,11 +101,19 @@ def _list_step(op: str, use_str: bool, n0: int, a, b, c, x, y, idx: int, j: int,
     elif op == "setslice":
         it = _iterable(kind, extra, schema, cfg)
 
+        step = STEP[0]
+
         def _sl_ref():
-            ref[idx:j] = nextra
+            if step is None:
+                ref[idx:j] = nextra
+            else:
+                ref[idx:j:step] = nextra
 
         def _sl_proxy():
-            proxy[idx:j] = it
+            if step is None:
+                proxy[idx:j] = it
+            else:
+                proxy[idx:j:step] = it
         r = _both(_sl_proxy, _sl_ref)
     elif op == "iadd":
         it = _iterable(kind, extra, schema, cfg)
@@ -297,6 +308,29 @@ for _k in range(6):
     _mk_setslice(_k)
 
 
+def _mk_extslice(step: int):
+    @obligation(prop="C17", name="list_int_extslice_s%s" % str(step).replace("-", "m"), group="list_int_extslice",
+                sites=("state", "op"), encodes=ENC_L, budget={"quick": 500, "thorough": 900},
+                what="ListProxy[i:j:%d] = iterable vs built-in list (extended slice: sizes must match, negative "
+                     "steps run backwards, open ends), IntField items, n0<=3, i,j in -3..3 or open, list / iterator" % step)
+    def ob(n0: int, a: int, b: int, c: int, x: int, y: int, idx: int, j: int, kind: int) -> bool:
+        """
+        pre: 0 <= n0 <= 3 and -4 <= idx <= 3 and -4 <= j <= 3 and 0 <= kind <= 1
+        pre: 0 <= a <= 100 and 0 <= b <= 100 and 0 <= c <= 100 and 0 <= x <= 100 and 0 <= y <= 100
+        post: _
+        """
+        STEP[0] = step
+        try:     # (-4 stands for an open end)
+            return _list_step("setslice", False, n0, a, b, c, x, y, None if idx == -4 else idx,
+                              None if j == -4 else j, (0, 2)[kind])
+        finally:
+            STEP[0] = None
+
+
+for _step in (-1, 2, -2):
+    _mk_extslice(_step)
+
+
 # ----------------------------------------------------------------------------- dict
 KEYS = ("a", "B", "c")
 DICT_OPS = ("setitem", "update_map", "update_pairs", "update_kw", "update_both", "update_proxy", "setdefault",
@@ -314,7 +348,7 @@ def _dict_step(op: str, m0: int, v0: int, v1: int, ki: int, kj: int, x: int, y: 
     cfg = schema()
     init = {}
     if m0 >= 1:
-        init["a"] = v0
+        init["a"] = v0 if v0 != 100 else None     # (v0 == 100 stands for a stored None: fields accept None)
     if m0 >= 2:
         init["B"] = v1
     cfg.d = dict(init)
